@@ -573,12 +573,8 @@ func GenOp(t *rapid.T, m *Model, tr Traits, cfg *GenCfg) Op {
 					if !r.Removed {
 						continue
 					}
-					if !tr.Tan && r.RemovedGen == m.Gen {
-						// known finding S12: Pebble's caches still describe the removed
-						// life until the store is reopened
-						cfg.count("excluded-" + SigS12)
-						continue
-					}
+					// (finding S12 - Pebble's caches described the removed life until the store
+					// was reopened - is fixed in /repo: a new life may start in the same process)
 					gone = append(gone, i)
 				}
 				if len(gone) > 0 && rapid.IntRange(0, 2).Draw(t, "newlife") == 0 {
